@@ -22,6 +22,15 @@ for log in sys.argv[1:]:
             entries[cur]["checks"].append(dict(check=m.group(1), rc=int(m.group(2)), lines=[]))
         elif entries[cur]["checks"] and (line.startswith("VIOLATION") or line.startswith("  engine") or line.startswith("HELD") or line.startswith("INCONCLUSIVE")):
             entries[cur]["checks"][-1]["lines"].append(line.strip()[:300])
+NOTES = {
+ 'own-m07_tarjan_lowlink': ('equivalent mutant - no violation to detect', 'low_link[v] <= index[v] for an on-stack v, so the partition is still right'),
+ 'own-m08_johnson_noclear': ('equivalent mutant - no violation to detect', 'for a single circuits() call the per-start reset is redundant (the independent C10 agents reached the same conclusion; a second call on the same object is a different break, C10-r2-1, which is caught)'),
+ 'own-m10_istournament_shortcut': ('equivalent mutant - no violation to detect', 'size == n(n-1)/2 and every pair joined at least once implies exactly once'),
+ 'own-m11_nextf64_mask': ('equivalent mutant - no violation to detect', 'mantissa bit 52 ORs into the lowest exponent bit of 1023, which is already set'),
+ 'own-m13_searchby_mark_s': ('equivalent mutant - no violation to detect', 'a chain that returns to the start ends one step earlier with the same answer None'),
+ 'own-m14_am_union_partition': ('equivalent mutant - no violation to detect', 'any monotone choice of merge-path split points tiles both inputs; result and tiling stay right'),
+ 'own-m20_el_from_drop_last': ('missed by the first version, caught after strengthening', 'needs a complete digraph of order > 40 (an artificial trigger); C16 now also draws dense families at orders 41-70 and reports EdgeList::from(AdjacencyList):arcs'),
+}
 table = []
 for name, e in sorted(entries.items()):
     a, k = e["src"]
@@ -58,6 +67,8 @@ for name, e in sorted(entries.items()):
         caught_by=kinds[:8],
         verdict="caught" if caught else ("missed" if missed else "not run"),
     )
+    if meta["name"] in NOTES:
+        meta["verdict"], meta["note"] = NOTES[meta["name"]]
     json.dump(meta, open(os.path.join(dst, "meta.json"), "w"), indent=1)
     table.append((meta["name"], ", ".join(files), meta["verdict"], "; ".join(kinds[:2])))
 for row in table:
